@@ -169,6 +169,14 @@ class WebSession(object):
 
                 request = self._original_request.copy()
                 request.url = url
+
+                # The copy still carries the fields that were derived from
+                # the original URL. Host must name the new URL (it is filled
+                # in by prepare_for_send); credentials and cookies are
+                # decided again for the new URL.
+                for name in ('Host', 'Authorization', 'Cookie'):
+                    if name in request.fields:
+                        del request.fields[name]
             else:
                 request = self._request_factory(url)
 
